@@ -50,7 +50,7 @@ let bytes_of_hex s =
   let rec go i acc = if i < 0 then acc else go (i - 1) (byte_tbl.(hexval s.[2*i] * 16 + hexval s.[2*i+1]) :: acc) in
   go (n - 1) []
 
-let parse (line : string) : sx =
+let parse line : sx =
   let n = String.length line in
   let pos = ref 0 in
   let rec skip () = if !pos < n && (line.[!pos] = ' ' || line.[!pos] = '\t' || line.[!pos] = '\r') then (incr pos; skip ()) in
